@@ -172,6 +172,19 @@ def check(case):
                         kind = "non-strict-inequality-read-as-strict-on-its-boundary"
                 except Exception:  # noqa: BLE001
                     pass
+            if not kind.startswith(("trig-of", "non-strict")):
+                # sympy folded a definition to a number although the text makes it depend on a variable (e.g. floor(floor(0.25)/exp(-abs(h)))
+                # becomes -1: floor of an unevaluated product with a zero factor) - inside the dependency, named as such
+                import re as _re
+                for ln in gen_lines(code, list(ref.assigns)):
+                    m_ = _re.fullmatch(r"(\w+) = \(?-?[0-9.eE+-]+\)?", ln)
+                    if m_ and m_.group(1) in ref.assigns and ref.assigns[m_.group(1)].deps:
+                        try:
+                            if not cm.vclose(float(ln.split("=", 1)[1].strip(" ()")), ref.evaluate(pt["t"], pt["states"], pt["params"])[0][m_.group(1)], scale):
+                                kind = "definition-folded-to-a-wrong-constant:" + kind
+                                break
+                        except Exception:  # noqa: BLE001
+                            pass
             n0 = sorted(bad)[0]
             add(f"C01:rhs-mismatch:{kind}", f"rhs value of d{n0}_dt differs from the reference meaning of `{ref.assigns['d' + n0 + '_dt'].expr_text[:80]}`", inp,
                 {k: want[k] for k in bad}, bad, f"generated line(s): {gen_lines(code, ['d' + k + '_dt' for k in bad])}", base="C01:rhs-mismatch")
